@@ -334,3 +334,37 @@ def fake_time(step=1.0):
         yield
     finally:
         time.time = orig
+
+
+
+class PopenLike:
+    """The part of subprocess.Popen's interface a scripted process must offer so that the code under test may use
+    ANY reasonable way of driving a child process (context manager, returncode after communicate()/wait(), poll(),
+    kill(), the stream attributes) - not just the calls the pinned gemato happens to make.  Sub-classes provide
+    communicate() and wait() and keep ``returncode`` up to date."""
+    returncode = None
+    stdin = stdout = stderr = None
+    pid = 4242
+    args = ()
+
+    def __enter__(self):
+        return self
+
+    def __exit__(self, exc_type, exc, tb):
+        if self.returncode is None:
+            try:
+                self.wait()
+            except Exception:          # noqa: BLE001
+                pass
+        return False
+
+    def poll(self):
+        return self.returncode
+
+    def kill(self):
+        pass
+
+    terminate = kill
+
+    def send_signal(self, sig):
+        pass
